@@ -24,13 +24,13 @@ var handlers = map[string]handler{}
 func register(name string, h handler) { handlers[name] = h }
 
 type sess struct {
-	out   *bufio.Writer
-	root  string // private scratch directory of this run
-	dir   string // directory of the current case
-	caseN int
-	st    map[string]interface{}
-	t0    int64 // wall clock (Unix seconds) at the start of the current case
-	deep  bool  // the current operation carries deep=1 (see srcBaseFor)
+	out     *bufio.Writer
+	root    string // private scratch directory of this run
+	dir     string // directory of the current case
+	caseN   int
+	st      map[string]interface{}
+	t0      int64  // wall clock (Unix seconds) at the start of the current case
+	deep    bool   // the current operation carries deep=1 (see srcBaseFor)
 	urlTail string // "", "/" or "/." : how the server URL of the current operation is spelled (urlspell=)
 }
 
